@@ -177,6 +177,7 @@ pub fn run_image(a: &Args) {
         for (i, t) in plan.scen.threads.iter_mut().enumerate() { match rng.below(4) { 0 => t.name = Some(fancy[i % fancy.len()].as_bytes().to_vec()), 1 => t.name = None, _ => {} } }
         if rng.chance(2, 3) { plan.user_maps.push((0x2000_0000, 0x3000, format!("/opt/démo/lib{}.so.{}", rng.pick(&["über‑café", "plain", "日本"]), rng.below(9)), (0..rng.below(24)).map(|_| rng.next() as u8).collect())); }
         if rng.chance(1, 3) { plan.user_maps.push((0x3000_0000, 0x1000, "noid".into(), vec![])); }
+        if case % 3 == 0 { plan.user_maps.push((0x3800_0000, 0x2000, "/opt/sha256/libwide.so".into(), (0..32).map(|_| rng.next() as u8).collect())); }   // a 32-byte identifier
         if case % 2 == 0 { plan.scen.lines.push(format!("appmem 0 {} {}", 3 * 4096 - *rng.pick(&[0x100u64, 1, 4095]), *rng.pick(&[0x200u64, 4096, 5000]))); plan.napp += 1; }
         for k in ["file", "pipe", "socket", "dir"] { if rng.chance(1, 2) { plan.scen.lines.push(format!("fd {k}")); } }
         let opts = format!("crash{} limit{} sanitize{} skip{} app{} threads{}", plan.crash, plan.limit.is_some() as u8, plan.sanitize as u8, plan.skip, plan.napp, plan.scen.threads.len());
